@@ -949,6 +949,7 @@ def check_profile(ctx, env, pc, o, compare=True):
         if k_ in ('ne', 'te') or (k_ == 'nd' and pc['donor_given']) or (k_ == 'dens' and pc['which'] == 'fd'):
             ctx.count('rep:%s:%s' % (k_, v_))
     ctx.count('profile-mode:' + pc.get('mode', 'affine'))
+    ctx.count('profile-length:' + ('x'.join(str(len(g)) for g in pc['grid']) or 'scalar'))
     if st == 'ok' and pc['dim'] > 0:
         # how often the stream really contains what a memoising / mis-keyed loop would get wrong
         seen = {}
@@ -1456,7 +1457,7 @@ def _equilibrium_checks(ctx, env, case, el, donor, psin, ne_o, te_o, nd_arg, den
             ctx.count('S-fail:C09:%s:differs-from-scalar-call' % name)
             ctx.fail('C09:%s:differs-from-scalar-call' % name,
                      '%s differs from the %s interpolation over psi_n of point-by-point scalar calls of %s by %.3g (relative to the largest '
-                     'value; profile mode %s)' % (name, order, direct_name, dev, mode), desc)
+                     'value; psi_n grid of %d points %r, profile mode %s)' % (name, order, direct_name, dev, len(psin), [float(x) for x in psin], mode), desc)
 
 
 # ---------------------------------------------------------------------------------------------------------------
